@@ -199,6 +199,18 @@ fn input_for_unpadded(prop: &str, tier: Tier, seed: u64, idx: u64, sub: u64) -> 
             }
         }
         "C09" | "C07-parse" => {
+            if n > 300 && rng.below(1500) == 0 {
+                // tens of thousands of tokens, then an error (or the end of the file) – token
+                // counts and positions beyond 2^16 without the cost of a huge automaton
+                let k = *rng.pick(&[21_840usize, 21_850, 32_770, 65_530, 65_540, 70_000]);
+                let body = match rng.below(3) {
+                    0 => format!("start S\nstruct S(\n{}", "$A ".repeat(k)),
+                    1 => format!("start S\nenum S {{\n{}", "V($A)\n".repeat(k / 4)),
+                    _ => format!("start S\nterminal T {{\n{}", "$A: a::b<c>\n".repeat(k / 8)),
+                };
+                let tail = rng.pick_str(&["", "<", ")", "}", "start", "$B:", "_", "#[x]", "::", ","]);
+                return ("long-file-with-late-error".into(), format!("{body}{tail}"));
+            }
             // prefix-extension sweep over valid files, token edits, token soup
             match rng.below(10) {
                 0..=3 => {
